@@ -294,7 +294,12 @@ func (e *Exec) doCall(fn *ssa.Function, fc *FuncContract, st *State, cc *ssa.Cal
 		}
 		e.havocForCall(st, nil, cc, args)
 		e.libUsed["invoke:"+cc.Method.FullName()] = true
-		e.setResult(st, dst, e.freshVal(st, "inv."+cc.Method.Name(), resT))
+		rv := e.freshVal(st, "inv."+cc.Method.Name(), resT)
+		if types.TypeString(cc.Value.Type(), nil) == "reflect.Type" && types.TypeString(resT, nil) == "reflect.Type" {
+			// reflect.Type methods returning a Type (Elem, Key, ...) never return nil (they panic instead)
+			e.assume(st, fmt.Sprintf("(> (i-tag %s) 0)", rv.S))
+		}
+		e.setResult(st, dst, rv)
 		return true, nil
 	}
 	callee := cc.StaticCallee()
